@@ -772,6 +772,8 @@ def nested_lengths(ctx, report):
                     ln = t.elts[1]
                     if not isinstance(ln, ast.Name) or not name_read_after(f.node, ln.id, par):
                         ok, why = False, 'the length is bound to %s and never read' % ast.unparse(ln)
+                    elif only_dead_stores(f.node, ln.id, par):
+                        ok, why = False, 'the length is bound to %s, which only feeds assignments that are never read' % ast.unparse(ln)
                 elif isinstance(t, ast.Name):
                     uses = [x for x in ast.walk(f.node) if isinstance(x, ast.Subscript) and isinstance(x.value, ast.Name) and x.value.id == t.id]
                     idx = {ast.unparse(u.slice) for u in uses}
@@ -787,10 +789,132 @@ def nested_lengths(ctx, report):
                 if hasattr(k, 'mro') and takes_whole_input(ctx, k):
                     ok = True               # nothing can be left over: the dropped length is always the length of the input
                     report.sample({'rule': 'C03.R6', 'site': f.qualname, 'nested': k.name, 'verdict': 'the nested parser consumes its whole input on every path'})
+                elif k is None and isinstance(n.func.value, ast.Name) and f.cls is not None and f.cls.name == 'ParserText' and \
+                        n.func.value.id in [a.arg for a in f.node.args.args]:
+                    # the nested class is a parameter of a text primitive: every class the repository hands to the text
+                    # primitives as item / fallback class has to take its whole input
+                    flow = text_item_classes(ctx)
+                    partial = sorted(c.name for c in flow if not takes_whole_input(ctx, c))
+                    if flow and not partial:
+                        ok = True
+                        report.sample({'rule': 'C03.R6', 'site': f.qualname, 'nested': sorted(c.name for c in flow),
+                                       'verdict': 'every item class handed to the text primitives consumes its whole input'})
+                    elif partial:
+                        why += '; item classes that can stop before the end of the item: %s' % ', '.join(partial[:6])
             if not ok:
                 report.add('C03.R6', '%s@nested[%s]' % (f.construct, ast.unparse(n.func)[:50]),
                            'nested parse %s: %s - a value longer than what the nested parser consumed is accepted and truncated' % (ast.unparse(n)[:60], why))
     report.floor('C03.R6', 8, 'nested parse calls')
+
+
+def only_dead_stores(fnode, name, after):
+    """is every read of ``name`` after ``after`` the right hand side of a plain assignment to a local that is never read
+    afterwards (``item_end = item_offset + parsed_length`` with item_end unused)?"""
+    parents = {}
+    for n in ast.walk(fnode):
+        for ch in ast.iter_child_nodes(n):
+            parents[id(ch)] = n
+    reads = [x for x in ast.walk(fnode) if isinstance(x, ast.Name) and x.id == name and isinstance(x.ctx, ast.Load) and getattr(x, 'lineno', 0) >= after.lineno]
+    rebinds = [st for st in ast.walk(fnode) if isinstance(st, ast.Assign) and st is not after and
+               any(isinstance(t, ast.Name) and t.id == name for tg in st.targets for t in ast.walk(tg))]
+
+    def sees_other_definition(x):
+        # a later, unconditional re-binding in a block that encloses the read and comes before it
+        chain = [x] + list(_ancestors(x, parents))
+        for node, anc in zip(chain, chain[1:]):
+            for field in ('body', 'orelse', 'finalbody'):
+                block = getattr(anc, field, None)
+                if isinstance(block, list) and any(b is node for b in block):
+                    idx = [i for i, b in enumerate(block) if b is node][0]
+                    if any(r is b for b in block[:idx] for r in rebinds) and not any(_inside(after, b) for b in block[:idx + 1]):
+                        return True
+        return False
+    reads = [x for x in reads if not sees_other_definition(x)]
+    if not reads:
+        return False
+    for x in reads:
+        p = x
+        while id(p) in parents and not isinstance(p, ast.stmt):
+            p = parents[id(p)]
+        if not (isinstance(p, ast.Assign) and len(p.targets) == 1 and isinstance(p.targets[0], ast.Name)):
+            return False
+        tgt = p.targets[0].id
+        if tgt == name:
+            return False
+        later = [y for y in ast.walk(fnode) if isinstance(y, ast.Name) and y.id == tgt and isinstance(y.ctx, ast.Load) and
+                 (getattr(y, 'lineno', 0), getattr(y, 'col_offset', 0)) > (p.lineno, p.col_offset) and not _inside(y, p) and
+                 not _exclusive(p, y, parents)]
+        in_loop = any(isinstance(q, (ast.While, ast.For)) for q in _ancestors(p, parents))
+        if later or in_loop:
+            return False
+    return True
+
+
+def _exclusive(a, b, parents):
+    """are the two nodes in different arms of one ``if`` statement (so that control cannot pass from one to the other
+    without leaving the statement)?"""
+    def arms(node):
+        out = {}
+        prev = node
+        for anc in _ancestors(node, parents):
+            if isinstance(anc, ast.If):
+                if any(x is prev for x in anc.body):
+                    out[id(anc)] = 'body'
+                elif any(x is prev for x in anc.orelse):
+                    out[id(anc)] = 'orelse'
+            prev = anc
+        return out
+    aa, bb = arms(a), arms(b)
+    return any(k in bb and bb[k] != v for k, v in aa.items())
+
+
+def _inside(node, stmt):
+    return any(x is node for x in ast.walk(stmt))
+
+
+def _ancestors(node, parents):
+    while id(node) in parents:
+        node = parents[id(node)]
+        yield node
+
+
+_TEXT_ITEM_CLASSES = {}
+
+
+def text_item_classes(ctx):
+    """parsable repository classes handed to the text primitives as item_class / fallback_class: keyword or positional
+    arguments of parse_string* calls, and the item / fallback class of every VectorString parameter object"""
+    if 'v' in _TEXT_ITEM_CLASSES:
+        return _TEXT_ITEM_CLASSES['v']
+    from ..values import ClassV, ObjV
+    model = ctx.model
+    out = set()
+
+    def add(k):
+        if hasattr(k, 'mro') and model.is_parsable(k):
+            out.add(k)
+    for f in model.functions():
+        if f.module.external:
+            continue
+        for n in ast.walk(f.node):
+            if isinstance(n, ast.Call) and isinstance(n.func, ast.Attribute) and n.func.attr.startswith('parse_string'):
+                for kw in n.keywords:
+                    if kw.arg in ('item_class', 'fallback_class'):
+                        add(model.resolve_expr(f.module, kw.value))
+                for a in n.args[1:]:
+                    if isinstance(a, (ast.Name, ast.Attribute)):
+                        add(model.resolve_expr(f.module, a))
+    for c in model.repo_classes():
+        if not c.is_subclass_of('VectorString') or c.abstract_methods or c.resolve('get_param') is None or c.resolve('get_param').abstract:
+            continue
+        prm = ctx.interp.const_call(c, 'get_param')
+        if isinstance(prm, ObjV):
+            for attr_name in ('item_class', 'fallback_class'):
+                v = prm.attrs.get(attr_name)
+                if isinstance(v, ClassV):
+                    add(v.cls)
+    _TEXT_ITEM_CLASSES['v'] = out
+    return out
 
 
 def takes_whole_input(ctx, k):
@@ -798,6 +922,12 @@ def takes_whole_input(ctx, k):
     string without an upper bound on its length, or an alternative on ``unparsed_length`` whose non-empty branch ends that way
     (and whose other branch is empty: nothing was left). Anything else: not known (False)"""
     from ..values import show
+    if k.is_subclass_of('VariantParsableExact'):
+        pf = k.resolve('_parse')
+        if pf is not None and pf.cls is not None and pf.cls.name == 'VariantParsableExact':
+            src = ast.unparse(pf.node)
+            if 'parse_exact_size' in src and 'parse_immutable' not in src and 'len(parsable)' in src:
+                return True             # every variant is parsed with the exact size primitive
     try:
         cn = ctx.canon.canon(k, 'parse')
     except Exception:       # pylint: disable=broad-except
@@ -810,6 +940,9 @@ def takes_whole_input(ctx, k):
         if e.kind == 't:string_by_length':
             targs = e.extra.get('targs', {})
             return 'max_length' in targs and targs['max_length'] is None
+        if e.kind == 't:string_array':
+            targs = e.extra.get('targs', {})
+            return 'max_item_num' in targs and targs['max_item_num'] is None      # the item loop runs until nothing is left
         if e.kind == 'alt':
             cond = getattr(e.op, 'cond', None)
             text = show(cond) if cond is not None else ''
@@ -843,13 +976,28 @@ def item_windows(ctx, report):
             params = [a.arg for a in f.node.args.args]
             if 'items_size' not in params:
                 continue
-            calls = [n for n in ast.walk(f.node) if isinstance(n, ast.Call) and isinstance(n.func, ast.Attribute) and n.func.attr == 'parse_immutable' and n.args]
+            calls = [(n, n.args[0]) for n in ast.walk(f.node)
+                     if isinstance(n, ast.Call) and isinstance(n.func, ast.Attribute) and n.func.attr == 'parse_immutable' and n.args]
+            # item parses done by a helper method that is handed the buffer: the argument of the helper call is the buffer
+            for n in ast.walk(f.node):
+                if isinstance(n, ast.Call) and isinstance(n.func, ast.Attribute) and isinstance(n.func.value, ast.Name) and \
+                        (n.func.value.id in ('self', 'cls') or n.func.value.id in [k.name for k in c.mro if hasattr(k, 'name')]):
+                    h = c.resolve(n.func.attr)
+                    if h is None or h is f or h.module.external:
+                        continue
+                    hp = [a.arg for a in h.node.args.args if a.arg not in ('self', 'cls')]
+                    for x in ast.walk(h.node):
+                        if isinstance(x, ast.Call) and isinstance(x.func, ast.Attribute) and x.func.attr == 'parse_immutable' and x.args and \
+                                isinstance(x.args[0], ast.Name) and x.args[0].id in hp and hp.index(x.args[0].id) < len(n.args) and \
+                                not any(isinstance(st, ast.Assign) and any(isinstance(t, ast.Name) and t.id == x.args[0].id for t in st.targets)
+                                        for st in ast.walk(h.node)):
+                            calls.append((x, n.args[hp.index(x.args[0].id)]))
+                            report.touch(h)
             if not calls:
                 continue
             report.touch(f)
-            for call in calls:
+            for call, arg in calls:
                 report.count('C03.R7')
-                arg = call.args[0]
                 if not isinstance(arg, ast.Name):
                     if not (isinstance(arg, ast.Subscript) and isinstance(arg.slice, ast.Slice) and arg.slice.upper is not None and 'items_size' in ast.unparse(arg.slice.upper)):
                         report.add('C03.R7', '%s@window[%s]' % (f.construct, ast.unparse(call.func)[:40]), 'item parser input %s is not bounded by items_size' % ast.unparse(arg)[:60])
